@@ -142,7 +142,7 @@ func runC10(t *testing.T, c *choice.Stream, r *Result, opt RunOpt) {
 			}
 			ctxDone := func() (bool, time.Duration, int) {
 				if useDeadline {
-					if ctx.Err() != nil {
+					if ctx.Err() != nil || e.Sim.Now() >= dl {
 						// liveness is judged from the instant fair mode began: a
 						// simulator-made stall may have carried the clock past the deadline
 						return true, max(dl, e.Sim.FairSince), firedStep
